@@ -174,6 +174,27 @@ def _aug(stmts, attr, idx, op):
 def rule_cn(ctx):
     rep = ctx.report
     cls = ctx.repo.cls('core.ProfilingDataset')
+    # counting starts at zero: the constructor creates the counter containers with zero entries, and nothing but the
+    # two fetch methods writes them
+    ini = cls.own('__init__')
+    if ini is None:
+        raise AnalysisError('anchor vanished: ProfilingDataset.__init__')
+    for attr, size in (('hit_count', 2), ('time', 1)):
+        st = [n for n in A.walk_local(ini.node) if isinstance(n, ast.Assign) and A.is_self_attr(n.targets[0], attr)]
+        ok = len(st) == 1 and isinstance(st[0].value, ast.List) and len(st[0].value.elts) == size and all(
+            isinstance(e, ast.Constant) and not isinstance(e.value, bool) and e.value == 0 for e in st[0].value.elts) \
+            and not flow.enclosing_guards(st[0], ini.node)
+        rep.ob('CN', K.key(cls, '__init__', 'counter-starts-at-zero(%s)' % attr), ok, st[0] if st else ini.node,
+               '' if ok else 'self.%s must be created as a fresh list of %d zero(s), unconditionally; found %s' % (
+                   attr, size, A.short(st[0].value) if st else 'no assignment'))
+    writers = sorted({'%s.%s' % (c.name, mn) for c in ctx.repo.classes.values() for mn, m_ in c.members.items()
+                      if m_.is_function and mn not in ('__iter__', '__getitem__', '__init__', 'copy')
+                      for n in A.walk_local(m_.node)
+                      if isinstance(n, (ast.Assign, ast.AugAssign)) and any(
+                          isinstance(x, ast.Attribute) and x.attr == 'hit_count'
+                          for t_ in (n.targets if isinstance(n, ast.Assign) else [n.target]) for x in ast.walk(t_))})
+    rep.ob('CN', K.key(cls, None, 'hit_count-written-only-by-the-fetch-methods'), not writers, cls.node,
+           '' if not writers else 'hit_count is also written by %s' % writers)
     for mname in ('__iter__', '__getitem__'):
         mem = cls.own(mname)
         if mem is None:
